@@ -143,7 +143,9 @@ func checkFirstSteps(c *Ctx, p *Prog, rule string) {
 		for _, term := range []bool{true, false} {
 			reg := &Region{Fn: ff, Summaries: map[string]Summary{
 				"*.IsTerminal": func(r *Run, cc *ssa.CallCommon, args []Val) (Val, error) { return boolConst(term), nil },
-				"*.GetSet":     func(r *Run, cc *ssa.CallCommon, args []Val) (Val, error) { return VOpq{"GetSet(" + render(args[1]) + ")"}, nil },
+				"*.GetSet": func(r *Run, cc *ssa.CallCommon, args []Val) (Val, error) {
+					return VOpq{"GetSet(" + render(args[1]) + ")"}, nil
+				},
 			}}
 			out := InterpretSafe(reg, &MapWorld{})
 			var ok bool
@@ -168,10 +170,10 @@ func checkFirstSteps(c *Ctx, p *Prog, rule string) {
 	}
 	inner := hs[1]
 	for _, wd := range []struct {
-		name                     string
-		nsym                     int64
-		terminal, equal, added   bool
-		leftrec                  bool
+		name                   string
+		nsym                   int64
+		terminal, equal, added bool
+		leftrec                bool
 	}{{"alternative starts with a terminal, new", 2, true, false, true, false}, {"alternative starts with a terminal, known", 2, true, false, false, false},
 		{"starts with a nonterminal, FIRST grew", 2, false, false, true, false}, {"starts with a nonterminal, FIRST unchanged", 2, false, true, false, false},
 		{"left-recursive alternative, FIRST grew", 2, false, false, true, true}, {"left-recursive alternative, FIRST unchanged", 2, false, true, false, true},
@@ -180,21 +182,29 @@ func checkFirstSteps(c *Ctx, p *Prog, rule string) {
 			PhiInputs: map[string]Val{"again": VAtom{Key: "AGAIN"}, "rangeindex": VSym{Name: "k"}},
 			PreWorld:  &MapWorld{AtomFn: func(k string) (bool, bool) { return false, strings.Contains(k, "SyntaxPart") }, IntFn: func(n string) (int64, bool) { return 3, strings.HasPrefix(n, "len(") }},
 			Summaries: map[string]Summary{
-				"*.IsTerminal":         func(r *Run, cc *ssa.CallCommon, args []Val) (Val, error) { return boolConst(wd.terminal), nil },
-				"invoke:SymbolString":  func(r *Run, cc *ssa.CallCommon, args []Val) (Val, error) { return VOpq{"SYM0"}, nil },
-				"*.AddToken":           eventSummary("AddToken", func(args []Val) Val { return boolConst(wd.added) }),
-				"*.AddSet":             eventSummary("AddSet", func(args []Val) Val { return boolConst(wd.added) }),
-				"*.FirstS":             func(r *Run, cc *ssa.CallCommon, args []Val) (Val, error) { return VOpq{"FirstS(" + render(args[1]) + ")"}, nil },
-				"*.stringList":         func(r *Run, cc *ssa.CallCommon, args []Val) (Val, error) { return VOpq{"names(" + render(args[0]) + ")"}, nil },
-				"*.GetSet":             func(r *Run, cc *ssa.CallCommon, args []Val) (Val, error) { return VOpq{"GetSet(" + render(args[1]) + ")"}, nil },
-				"*.Equal":              func(r *Run, cc *ssa.CallCommon, args []Val) (Val, error) { return boolConst(wd.equal), nil },
+				"*.IsTerminal":        func(r *Run, cc *ssa.CallCommon, args []Val) (Val, error) { return boolConst(wd.terminal), nil },
+				"invoke:SymbolString": func(r *Run, cc *ssa.CallCommon, args []Val) (Val, error) { return VOpq{"SYM0"}, nil },
+				"*.AddToken":          eventSummary("AddToken", func(args []Val) Val { return boolConst(wd.added) }),
+				"*.AddSet":            eventSummary("AddSet", func(args []Val) Val { return boolConst(wd.added) }),
+				"*.FirstS": func(r *Run, cc *ssa.CallCommon, args []Val) (Val, error) {
+					return VOpq{"FirstS(" + render(args[1]) + ")"}, nil
+				},
+				"*.stringList": func(r *Run, cc *ssa.CallCommon, args []Val) (Val, error) {
+					return VOpq{"names(" + render(args[0]) + ")"}, nil
+				},
+				"*.GetSet": func(r *Run, cc *ssa.CallCommon, args []Val) (Val, error) {
+					return VOpq{"GetSet(" + render(args[1]) + ")"}, nil
+				},
+				"*.Equal": func(r *Run, cc *ssa.CallCommon, args []Val) (Val, error) { return boolConst(wd.equal), nil },
 			}}
 		w := &MapWorld{Ints: map[string]int64{"k": 0}, IntFn: func(n string) (int64, bool) {
 			if strings.Contains(n, "Body.Symbols") {
 				return wd.nsym, true
 			}
 			return 3, strings.HasPrefix(n, "len(")
-		}, AtomFn: func(k string) (bool, bool) { return wd.leftrec, strings.Contains(k, " == ") && strings.Contains(k, "SYM0") }}
+		}, AtomFn: func(k string) (bool, bool) {
+			return wd.leftrec, strings.Contains(k, " == ") && strings.Contains(k, "SYM0")
+		}}
 		out := InterpretSafe(reg, w)
 		prod := "**g.SyntaxPart.ProdList[k+1]"
 		var wantEv string
@@ -263,8 +273,8 @@ func checkLR1Steps(c *Ctx, p *Prog, rule string) {
 			}
 			// (i) which items are expanded
 			for _, wd := range []struct {
-				name                    string
-				newer, complete, term   bool
+				name                  string
+				newer, complete, term bool
 			}{{"item already processed", false, false, false}, {"complete item", true, true, false}, {"next symbol is a terminal", true, false, true}, {"next symbol is a nonterminal", true, false, false}} {
 				sm := base()
 				sm["*.IsTerminal"] = func(r *Run, cc *ssa.CallCommon, args []Val) (Val, error) { return boolConst(wd.term), nil }
@@ -355,10 +365,14 @@ func checkLR1Steps(c *Ctx, p *Prog, rule string) {
 			sm := func() map[string]Summary {
 				return map[string]Summary{
 					"*.NewItemSet": func(r *Run, cc *ssa.CallCommon, args []Val) (Val, error) { return VPtr{r.NewObj("J", false), ""}, nil },
-					"*.Move":       func(r *Run, cc *ssa.CallCommon, args []Val) (Val, error) { return VOpq{"Move(" + render(args[0]) + ")"}, nil },
-					"*.AddItem":    addItemSummary,
-					"*.Size":       func(r *Run, cc *ssa.CallCommon, args []Val) (Val, error) { return VSym{Name: "JSIZE"}, nil },
-					"*.Closure":    func(r *Run, cc *ssa.CallCommon, args []Val) (Val, error) { return VOpq{"Closure(" + render(args[0]) + ")"}, nil },
+					"*.Move": func(r *Run, cc *ssa.CallCommon, args []Val) (Val, error) {
+						return VOpq{"Move(" + render(args[0]) + ")"}, nil
+					},
+					"*.AddItem": addItemSummary,
+					"*.Size":    func(r *Run, cc *ssa.CallCommon, args []Val) (Val, error) { return VSym{Name: "JSIZE"}, nil },
+					"*.Closure": func(r *Run, cc *ssa.CallCommon, args []Val) (Val, error) {
+						return VOpq{"Closure(" + render(args[0]) + ")"}, nil
+					},
 				}
 			}
 			for _, wd := range []struct {
@@ -525,10 +539,10 @@ func checkItemSetOps(c *Ctx, p *Prog, rule string) {
 		c.Undecided(rule, "lr1 ItemSet.Equal", "expected one loop", p.FnPos(fn))
 	} else {
 		for _, wd := range []struct {
-			name     string
-			isNil    bool
-			la, lb   int64
-			want     string
+			name   string
+			isNil  bool
+			la, lb int64
+			want   string
 		}{{"other set is nil", true, 2, 2, "return false"}, {"different number of items", false, 2, 3, "return false"}, {"same number of items", false, 2, 2, "cut"}} {
 			reg := &Region{Fn: fn, Cuts: cutSet(hs[0])}
 			if wd.isNil {
@@ -579,10 +593,10 @@ func checkItemSetOps(c *Ctx, p *Prog, rule string) {
 				}}
 		}
 		for _, wd := range []struct {
-			name       string
-			idx, n     int64
-			eq         bool
-			want       string
+			name   string
+			idx, n int64
+			eq     bool
+			want   string
 		}{{"set k equals I", 1, 4, true, "return k+1"}, {"set k differs", 1, 4, false, "cut"}, {"no set equals I", 3, 4, false, "return -1"}} {
 			var calls []string
 			reg := &Region{Fn: fn, Start: hs[0], Cuts: cutSet(hs[0]), Summaries: sm(wd.eq, &calls), PhiInputs: map[string]Val{"rangeindex": VSym{Name: "k"}},
